@@ -8,6 +8,12 @@ table; the model's matcher is also compared directly with `re.findall` / `Passwo
 Oracle (on the implementation only): mapping stable and growing over the history, one substitute per
 original, distinct substitutes for distinct IPv4 / host originals, no phantom originals, and every
 delimited original of an enabled obfuscator shows exactly its mapped substitute in the output.
+Round 10: calls also enter through clean_content(one string) and clean_file (incl. the netstat_-neopa name = width mode);
+generate_report() is taken before / between / after calls and twice in a row and held to the model's `report` answer
+(IV/Model/CleanReport.lean: flags, system name, five facts lists, five CSV files or their absence) and to the oracle (rows =
+mapping() at that moment, each original once, no IPv4 / host substitute twice, flags = configuration, files exactly for the
+enabled obfuscators, earlier report = prefix of the later one, a report changes no mapping); groups of histories are re-run
+on Cleaners alive at the same time and must give what they give alone.
 """
 import csv
 import hashlib
@@ -182,6 +188,63 @@ def clean_line(call):
                                    "".join("\t" + enc(l) for l in call["lines"]))
 
 
+def is_width_file(call):
+    return call.get("entry") == "file" and (call.get("fname") or "spec").endswith("netstat_-neopa")
+
+
+def eff_width(call):
+    """is the width mode on for this call (width=True, or clean_file on a file named netstat_-neopa)"""
+    return bool(call.get("width")) or is_width_file(call)
+
+
+def seen_lines(call):
+    """the lines as the parsers get them (a file's lines keep their terminator)"""
+    return [l + "\n" for l in call["lines"]] if call.get("entry") == "file" else call["lines"]
+
+
+def call_requests(call):
+    """driver requests of one call; the LAST one carries the answer"""
+    entry = call.get("entry", "list")
+    args = "%s\t%d\t%s" % (enc_l(call["no_obfuscate"]), call["no_redact"], enc_allow(call["allowlist"]))
+    if entry == "str":
+        return ["cleans\t%s\t%s" % (args, enc(call["lines"][0]))]
+    if entry == "file":
+        if is_width_file(call):
+            # clean_file on a file named netstat_-neopa = width-mode clean_content on the file's lines (terminators kept),
+            # an exception = file untouched; the composition is stated here, the parts are the model's
+            if not call["lines"]:
+                return ["cleanw\t%s" % args]
+            return ["cleanw\t%s%s" % (args, "".join("\t" + enc(l + "\n") for l in call["lines"]))]
+        return ["fset\t%s" % enc(file_text(call)), "cfile\t%s" % args]
+    return [clean_line(call)]
+
+
+def call_answer(call, ans):
+    """the model's answer in the shape of do_call"""
+    entry = call.get("entry", "list")
+    fs = ans.split("\t")
+    if entry == "str":
+        if ans == "None":
+            return []
+        return [dec(fs[1])] if fs[0] == "S" and len(fs) == 2 else ["<%s>" % ans]
+    if entry == "file":
+        if is_width_file(call):
+            if ans == "raised":
+                return [RAISED]
+            if fs[0] != "ok":
+                return ["<%s>" % ans]
+            out = [dec(x) for x in fs[1:]]
+            if not call["lines"]:
+                return []                      # an empty file is left alone
+            if not out:
+                return []                      # nothing left: the file is removed
+            return text_lines("".join(out))
+        if ans == "N":
+            return []
+        return text_lines(dec(fs[1])) if fs[0] == "F" and len(fs) == 2 else ["<%s>" % ans]
+    return model_out(ans)
+
+
 def hextets(lines):
     """candidate arguments of IPv6's sha1: pieces between colons, without leading zeros, lower-cased"""
     out = set()
@@ -252,7 +315,9 @@ def mk_cleaner(cfg, facts_file=None):
     if cfg["keywords"] is not None:
         rm["keywords"] = list(cfg["keywords"])
     if cfg["patterns"]:
-        rm["patterns"] = list(cfg["patterns"])
+        # regex form of the configuration (file-content-redaction.yaml `patterns: {regex: [...]}`): generated only with
+        # literal words, for which re.search is the substring test of the plain form
+        rm["patterns"] = {"regex": list(cfg["patterns"])} if cfg.get("patterns_regex") else list(cfg["patterns"])
     if cfg.get("socket"):
         # no fqdn given (as insights.collect.collect() and InsightsConnection._clean_facts() do): the Cleaner finds the name
         with patched_socket(cfg["socket"]):
@@ -267,7 +332,15 @@ def impl_mappings(cl):
     out = {}
     for k in KINDS:
         ob = cl.obfuscate.get(k)
-        out[k] = [(m["original"], m["obfuscated"]) for m in ob.mapping()] if ob else []
+        if not ob:
+            out[k] = []
+            continue
+        try:
+            out[k] = [(m["original"], m["obfuscated"]) for m in ob.mapping()]
+        except Exception as e:      # a mapping() that raises or lists something else than original/obfuscated pairs
+            out[k] = [("<mapping() of %s unusable: %s>" % (k, type(e).__name__), "")]
+        if not all(isinstance(o, str) and isinstance(x, str) for o, x in out[k]):
+            out[k] = [("<mapping() of %s lists non-strings>" % k, "")]
     out["keyword"] = sorted(out["keyword"])
     return out
 
@@ -291,17 +364,70 @@ def model_out(ans):
 
 
 RAISED = "<raised>"      # clean_content raised: the spec is not emitted
+NOEOL = "<no final newline>"
 
 
-def do_call(cl, call):
-    """the implementation's answer; an exception = the outcome "spec not emitted" """
+def shape(kind, val):
+    return ["<shape:%s:%s>" % (kind, type(val).__name__)]
+
+
+def text_lines(text):
+    """lines of a cleaned file as the oracle reads them (LF-terminated; a missing final LF is made visible)"""
+    parts = text.split("\n")
+    if parts[-1] == "":
+        return parts[:-1]
+    return parts + [NOEOL]
+
+
+def file_text(call):
+    return "".join(l + "\n" for l in call["lines"])
+
+
+def do_call(cl, call, tmp=None):
+    """the implementation's answer as a list of lines; an exception = the outcome "spec not emitted".
+    entry (default `list`): `str` = clean_content on ONE string (call["lines"] has one item), `file` = clean_file on a file
+    holding the lines LF-terminated (name call["fname"]; the name netstat_-neopa switches the width mode on)"""
+    entry = call.get("entry", "list")
+    kw = {"no_obfuscate": list(call["no_obfuscate"]), "no_redact": bool(call["no_redact"]),
+          "allowlist": None if call["allowlist"] is None else dict(call["allowlist"])}
+    if entry == "file":
+        d = tempfile.mkdtemp(prefix="c09f_", dir=tmp)
+        try:
+            path = os.path.join(d, call.get("fname") or "spec")
+            with open(path, "w", encoding="utf-8", newline="") as fh:
+                fh.write(file_text(call))
+            try:
+                r = cl.clean_file(path, **kw)
+            except Exception:
+                return [RAISED]
+            if r is not None:
+                return shape("clean_file", r)
+            if os.path.islink(path) or not os.path.isfile(path):
+                return [] if not os.path.lexists(path) else shape("path", "not-a-file")
+            with open(path, "rb") as fh:
+                raw = fh.read()
+            try:
+                return text_lines(raw.decode("utf-8"))
+            except UnicodeDecodeError:
+                return shape("file-bytes", raw)
+        finally:
+            shutil.rmtree(d, ignore_errors=True)
     try:
-        kw = {"width": True} if call.get("width") else {}
-        return cl.clean_content(list(call["lines"]), no_obfuscate=list(call["no_obfuscate"]),
-                                no_redact=bool(call["no_redact"]),
-                                allowlist=None if call["allowlist"] is None else dict(call["allowlist"]), **kw)
+        if call.get("width"):
+            kw["width"] = True
+        if entry == "str":
+            r = cl.clean_content(call["lines"][0], **kw)
+        else:
+            r = cl.clean_content(list(call["lines"]), **kw)
     except Exception:  # the implementation wraps its own failures in Exception
         return [RAISED]
+    if entry == "str":
+        if r is None:
+            return []          # a pattern / the allow list dropped the text
+        return [r] if isinstance(r, str) else shape("str-route", r)
+    if not isinstance(r, list) or not all(isinstance(x, str) for x in r):
+        return shape("list-route", r)
+    return r
 
 
 # --------------------------------------------------------------------------- generator
@@ -333,6 +459,16 @@ def mac_obf(mac):
     up = mac.isupper()
     parts = [sha(h.lower())[:len(h)] for h in mac.split(sepc)]
     return sepc.join(p.upper() if up else p for p in parts)
+
+
+def ip6_obf(ip):
+    """what IPv6._ip2db issues, written from its description (each group: leading zeros kept, sha1 of the rest)"""
+    def hx(h):
+        n0 = h.lstrip("0").lower()
+        if not n0:
+            return "0" * len(h)
+        return "0" * (len(h) - len(n0)) + sha(n0)[:len(n0)]
+    return ":".join(hx(h) for h in ip.split(":"))
 
 
 class Gen(object):
@@ -384,6 +520,8 @@ class Gen(object):
 
     def ip6(self):
         r = self.rng
+        if self.prone and self.pool["ip6"] and r.random() < 0.15:
+            return ip6_obf(r.choice(self.pool["ip6"]))            # an address that IS a substitute
         return r.choice(["abcd::1", "fe80::5054:ff:fe12:3456", "2001:db8:0:0:1:2:3:4", "::1", "2001:0db8::0001/64",
                          "FE80::1", "ab:cd::%x" % r.randrange(0x10000), "1:2:3:4:5:6:7:%x" % r.randrange(0x100)])
 
@@ -555,6 +693,8 @@ def gen_history(rng, tier):
         "keywords": rng.choice([None, [], ["Zorg"], ["QUUX", " wibble "], ["xyzzy", "Zorg", "xyzzy"], ["link", "Zorg"]]),
         "patterns": rng.choice([[], [], [], ["mtu"], ["GET", "via"]]),
     }
+    if cfg["patterns"] and rng.random() < 0.3:
+        cfg["patterns_regex"] = 1
     if rng.random() < 0.2:
         short = fqdn.split(".")[0]
         k = rng.randrange(5)
@@ -585,12 +725,36 @@ def gen_history(rng, tier):
         no = []
         if rng.random() < 0.2:
             no = rng.sample(["hostname", "ip", "ipv6", "keyword", "mac", "password"], rng.randrange(1, 4))
+            if rng.random() < 0.25:
+                no = no + [rng.choice(no), rng.choice(["bogus", "IP", "ipv4", ""])]      # duplicates, names of no obfuscator
         al = None
         if rng.random() < 0.12:
-            al = dict((w, rng.choice([1, 2, 5])) for w in rng.sample(WORDS + ["1", "."], rng.randrange(0, 3)))
-        calls.append({"lines": lines, "tokens": toks, "no_obfuscate": no, "no_redact": 1 if rng.random() < 0.2 else 0,
-                      "allowlist": al, "width": width})
-    return {"cfg": cfg, "calls": calls, "prone": prone}
+            al = dict((w, rng.choice([0, 1, 2, 5])) for w in rng.sample(WORDS + ["1", "."], rng.randrange(0, 3)))
+        call = {"lines": lines, "tokens": toks, "no_obfuscate": no, "no_redact": 1 if rng.random() < 0.2 else 0,
+                "allowlist": al, "width": width}
+        # the other entry points share the databases: one string (split=False commands, fact strings), a file (clean_file)
+        k = rng.random()
+        if k < 0.10 and not width:
+            if not lines:
+                t, tk = g.line()
+                call["lines"], call["tokens"] = [t], [tk]
+            else:
+                call["lines"], call["tokens"] = lines[:1], toks[:1]
+            call["entry"] = "str"
+        elif k < 0.22:
+            call["entry"] = "file"
+            call["width"] = 0
+            call["fname"] = "netstat_-neopa" if width else rng.choice(["ip_addr", "messages", "netstat_-neopa.txt", "netstat_-neop", "spec"])
+        calls.append(call)
+    h = {"cfg": cfg, "calls": calls, "prone": prone}
+    if rng.random() < 0.5:
+        # reports in the middle of the run (collect.py takes one at the end; nothing forbids taking one earlier or twice)
+        plan = {}
+        for _ in range(rng.choice([1, 1, 2, 3])):
+            pos = rng.randrange(-1, ncalls)
+            plan.setdefault(str(pos), []).append(rng.choice(["arch", "arch", "insights-web01-20260929", "a b.c"]))
+        h["reports"] = plan
+    return h
 
 
 # --------------------------------------------------------------------------- oracle
@@ -721,8 +885,8 @@ class Oracle(object):
         for l in call["lines"]:
             scan_inputs(cfg, l, self.seen)
         k_now = len(self.seen["ip"])
-        if call.get("width") and cfg["obfuscate"] and "ip" not in call["no_obfuscate"] \
-                and any(width_deletes(l, k_now) for l in call["lines"]):
+        if eff_width(call) and cfg["obfuscate"] and "ip" not in call["no_obfuscate"] \
+                and any(width_deletes(l, k_now) for l in seen_lines(call)):
             self.garbled = "width-mode-garble"
         issued = maps
         for k in ("ip", "hostname", "mac", "ipv6"):
@@ -755,7 +919,7 @@ class Oracle(object):
             return
         self.emitted.append((idx, call, out, len(self.seen["ip"])))
         # what the outputs show: only when every line survived and splits into the same fields
-        if len(out) != len(call["lines"]) or call.get("width"):
+        if len(out) != len(call["lines"]) or eff_width(call):
             return
         stage_on = {
             "ip": cfg["obfuscate"] and "ip" not in call["no_obfuscate"],
@@ -816,8 +980,14 @@ class Oracle(object):
         m6 = dict(maps["ipv6"])
         for idx, li, a, b, swallowed in self.pending6:
             if a in m6 and b != m6[a] and not (cfg["keywords"] and any(k.strip() in m6[a] or k.strip() in a for k in cfg["keywords"])):
+                # (input-only) the substitute this original gets IS another original of the history: the guard against
+                # re-obfuscating issued values is consulted only for addresses that are not originals yet
+                # — as it stands or as a substring (a spelling with fewer leading zeros): `line.replace` of that other
+                # original then rewrites text inside the substitute just inserted. Judged over the originals of the history.
+                subs6 = [ip6_obf(o) for o in m6]
+                collides = any(o in x for o in m6 for x in subs6)
                 fail("ipv6 %r (call %d line %d) is shown as %r but the mapping says %r" % (a, idx, li, b, m6[a]), "ipv6", issued,
-                     "ipv6-swallowed-by-ignored-match" if swallowed else None)
+                     "ipv6-swallowed-by-ignored-match" if swallowed else "ipv6-substitute-collision" if collides else None)
         # different spellings of one MAC (case, separator) are different originals: where the documented scheme
         # (sha1 of each lower-cased pair, same case and separator) gives them different substitutes they must not share one
         cfg = self.cfg
@@ -836,13 +1006,13 @@ class Oracle(object):
             if not (cfg["obfuscate"] and "ip" not in call["no_obfuscate"]):
                 continue
             aligned = len(out) == len(call["lines"])
-            wm = " (width mode)" if call.get("width") else ""
+            wm = " (width mode)" if eff_width(call) else ""
 
             def excused(n):
                 # ONLY by the input: a width=True call and a source line on which the keep-width step removes characters
                 # (when lines were dropped the source line of an output line is unknown: any line of the call)
-                src = [call["lines"][n]] if aligned else call["lines"]
-                return bool(call.get("width")) and any(width_deletes(l, k_now) for l in src)
+                src = [seen_lines(call)[n]] if aligned else seen_lines(call)
+                return eff_width(call) and any(width_deletes(l, k_now) for l in src)
             for n, line in enumerate(out):
                 for t in addr_tokens(line):
                     if t in ipmap and t not in subs and t != "127.0.0.1":
@@ -868,70 +1038,220 @@ class Oracle(object):
 
 CURRENT_REAL_NAME = [None]
 
+REPORT_FILES = (("ip", "-ip.csv", "Obfuscated IPv4,Original IPv4"), ("hostname", "-hostname.csv", "Obfuscated Hostname,Original Hostname"),
+                ("mac", "-mac.csv", "Obfuscated MAC,Original MAC"), ("ipv6", "-ipv6.csv", "Obfuscated IPv6,Original IPv6"),
+                ("keyword", "-keyword.csv", "Replaced Keyword,Original Keyword"))
+FACT_KEYS = {"ip": "insights_client.obfuscated_ipv4", "ipv6": "insights_client.obfuscated_ipv6",
+             "mac": "insights_client.obfuscated_mac", "hostname": "insights_client.obfuscated_hostname",
+             "keyword": "insights_client.obfuscated_keyword"}
+FLAG_KEYS = ("insights_client.obfuscate_ipv4_enabled", "insights_client.obfuscate_ipv6_enabled",
+             "insights_client.obfuscate_hostname_enabled", "insights_client.obfuscate_mac_enabled")
 
-def run_history(h, tmp, want_reports=False):
-    """-> (impl outputs per call, impl mappings per call, failures [(desc, finding)], reports)"""
+
+def report_plan(h):
+    """{position: [archive names]}: reports taken before the first call (-1) / after call i, besides the final one"""
+    return dict((int(k), list(v)) for k, v in (h.get("reports") or {}).items())
+
+
+def history_steps(h, tmp, want_reports=False, tag=""):
+    """generator: one step (a call or the reports behind it) per next(); returns
+    (impl outputs per call, impl mappings per call, failures [(desc, finding)], reports [(position, name, canonical)])"""
     cfg = h["cfg"]
     CURRENT_REAL_NAME[0] = cfg["fqdn"]
-    facts = os.path.join(tmp, "facts.json")
+    facts = os.path.join(tmp, "facts%s.json" % tag)
     cl = mk_cleaner(cfg, facts)
-    cl.report_dir = tmp
     orc = Oracle(cfg)
     fails = []
 
     def fail(desc, kind, maps_now, finding=None):
         fails.append((desc, finding or (classify(cfg, kind, orc.seen, maps_now) if isinstance(maps_now, dict) else None)))
-    outs, maps = [], []
-    for i, call in enumerate(h["calls"]):
-        o = do_call(cl, call)
-        mp = impl_mappings(cl)
-        outs.append(o)
-        maps.append(mp)
-        orc.after_call(i, call, o, mp, fail)
-    final = impl_mappings(cl)
-    orc.finish(final, fail)
-    rep = None
-    if want_reports:
-        rep = reports(cl, tmp, final, fail)
-    return outs, maps, fails, rep
+    outs, maps, reps = [], [], []
+    plan = report_plan(h) if want_reports else {}
+    prev_rows = {"#facts": facts}
 
-
-def reports(cl, tmp, final, fail):
-    """generate_report: the facts file and the CSV files must say what mapping() says"""
+    def rep_at(pos, names):
+        for name in names:
+            reps.append((pos, name, take_report(cl, cfg, tmp, name, fail, prev_rows)))
     try:
-        cl.generate_report("arch")
-        facts = json.load(open(os.path.join(tmp, "facts.json")))
-    except Exception as e:
-        fail("generate_report failed: %r" % (e,), "report", None)
-        return None
-    keys = {"ip": "insights_client.obfuscated_ipv4", "ipv6": "insights_client.obfuscated_ipv6",
-            "mac": "insights_client.obfuscated_mac", "hostname": "insights_client.obfuscated_hostname",
-            "keyword": "insights_client.obfuscated_keyword"}
-    got = {}
-    for k, fk in keys.items():
-        got[k] = [(m["original"], m["obfuscated"]) for m in json.loads(facts[fk])]
-    got["keyword"] = sorted(got["keyword"])
-    if got != final:
-        fail("facts file differs from mapping(): %r vs %r" % (got, final), "report", None)
-    for k, name, head in (("ip", "arch-ip.csv", "Obfuscated IPv4,Original IPv4"),
-                          ("hostname", "arch-hostname.csv", "Obfuscated Hostname,Original Hostname"),
-                          ("mac", "arch-mac.csv", "Obfuscated MAC,Original MAC"),
-                          ("ipv6", "arch-ipv6.csv", "Obfuscated IPv6,Original IPv6")):
-        p = os.path.join(tmp, name)
-        if cl.obfuscate.get(k):
-            got_txt = open(p, encoding="utf-8").read()
-            want_txt = "".join(x + "\n" for x in [head] + ["%s,%s" % (sub, orig) for orig, sub in final[k]])
-            if got_txt != want_txt:
-                fail("%s differs from mapping(): %r vs %r" % (name, got_txt, want_txt), "report", None)
-    if facts.get("insights_client.hostname") != cl.fqdn or cl.fqdn != CURRENT_REAL_NAME[0]:
-        fail("the system name in the facts file / of the Cleaner is %r / %r, the system's real name is %r" % (
-            facts.get("insights_client.hostname"), cl.fqdn, CURRENT_REAL_NAME[0]), "report", None)
-    enabled = [facts["insights_client.obfuscate_ipv4_enabled"], facts["insights_client.obfuscate_hostname_enabled"],
-               facts["insights_client.obfuscate_mac_enabled"], facts["insights_client.obfuscate_ipv6_enabled"]]
-    return {"facts": got, "enabled": enabled, "hostname": facts["insights_client.hostname"]}
+        rep_at(-1, plan.get(-1, []))
+        yield
+        for i, call in enumerate(h["calls"]):
+            o = do_call(cl, call, tmp)
+            mp = impl_mappings(cl)
+            outs.append(o)
+            maps.append(mp)
+            orc.after_call(i, call, o, mp, fail)
+            rep_at(i, plan.get(i, []))
+            yield
+        final = impl_mappings(cl)
+        orc.finish(final, fail)
+        if want_reports:
+            rep_at(len(h["calls"]), ["arch"])
+    finally:
+        if prev_rows.get("#dir"):
+            shutil.rmtree(prev_rows["#dir"], ignore_errors=True)
+    return outs, maps, fails, reps
 
 
-def model_lines(h, impl_maps=None):
+def drive(gen):
+    while True:
+        try:
+            next(gen)
+        except StopIteration as e:
+            return e.value
+
+
+def run_history(h, tmp, want_reports=False):
+    return drive(history_steps(h, tmp, want_reports))
+
+
+def run_interleaved(hs, tmp):
+    """the histories on Cleaners that are alive at the same time, one step of each in turn"""
+    gens = [history_steps(h, tmp, True, tag="_%d" % n) for n, h in enumerate(hs)]
+    done = [None] * len(gens)
+    while any(d is None for d in done):
+        for n, g in enumerate(gens):
+            if done[n] is None:
+                try:
+                    next(g)
+                except StopIteration as e:
+                    done[n] = e.value
+    return done
+
+
+def take_report(cl, cfg, tmp, name, fail, prev_rows):
+    """one generate_report(name) into a fresh directory. ORACLE (implementation only): the facts lists and the CSV rows
+    say what mapping() says at that moment, every original once, no IPv4 / host substitute twice, the flags are the
+    configuration's switches and the files exist for exactly the enabled obfuscators, an earlier report of the same Cleaner
+    is a prefix of this one, and taking a report changes no mapping. Returns the canonical report for the tie."""
+    # ONE report directory per history (as /tmp is for the client): a later report of the same name replaces the earlier one
+    rdir = prev_rows.get("#dir")
+    facts_path = prev_rows.get("#facts") or os.path.join(tmp, "facts.json")
+    if rdir is None:
+        rdir = prev_rows["#dir"] = tempfile.mkdtemp(prefix="rep_", dir=tmp)
+        if os.path.lexists(facts_path):
+            os.remove(facts_path)
+    before = impl_mappings(cl)
+    cl.report_dir = rdir
+    try:
+        try:
+            cl.generate_report(name)
+        except Exception as e:
+            fail("generate_report(%r) failed: %r" % (name, e), "report", None)
+            return {"raised": type(e).__name__}
+        after = impl_mappings(cl)
+        if after != before:
+            fail("generate_report(%r) changed mapping(): %r -> %r" % (name, before, after), "report", None)
+        canon = {"flags": None, "sys": None, "facts": None, "files": {}}
+        # ---- facts file
+        facts = None
+        try:
+            with open(facts_path, encoding="utf-8") as fh:
+                facts = json.load(fh)
+        except (IOError, OSError, ValueError) as e:
+            fail("generate_report(%r): the facts file is missing or not JSON: %r" % (name, e), "report", None)
+        if isinstance(facts, dict):
+            got = {}
+            for k, fk in FACT_KEYS.items():
+                try:
+                    got[k] = [(m["original"], m["obfuscated"]) for m in json.loads(facts[fk])]
+                except (KeyError, TypeError, ValueError) as e:
+                    fail("facts file: entry %s missing or malformed: %r" % (fk, e), "report", None)
+                    got[k] = None
+            if got.get("keyword") is not None:
+                got["keyword"] = sorted(got["keyword"])
+            if got != after:
+                fail("facts file differs from mapping(): %r vs %r" % (got, after), "report", None)
+            flags = [facts.get(k) for k in FLAG_KEYS]
+            want_flags = [bool(cfg["obfuscate"]), bool(cfg["obfuscate"] and cfg["ipv6"]), bool(cfg["obfuscate"] and cfg["hostname"]),
+                          bool(cfg["obfuscate"] and cfg["mac"])]
+            if flags != want_flags:
+                fail("facts file: enabled flags (ipv4, ipv6, hostname, mac) are %r, the configuration says %r" % (flags, want_flags),
+                     "report", None)
+            if facts.get("insights_client.hostname") != cl.fqdn or cl.fqdn != cfg["fqdn"]:
+                fail("the system name in the facts file / of the Cleaner is %r / %r, the system's real name is %r" % (
+                    facts.get("insights_client.hostname"), cl.fqdn, cfg["fqdn"]), "report", None)
+            canon["flags"] = "".join("1" if f is True else "0" if f is False else "?" for f in flags)
+            canon["sys"] = facts.get("insights_client.hostname")
+            canon["facts"] = [got[k] for k in KINDS]
+        # ---- CSV files
+        enabled = {"ip": cfg["obfuscate"], "hostname": cfg["obfuscate"] and cfg["hostname"], "mac": cfg["obfuscate"] and cfg["mac"],
+                   "ipv6": cfg["obfuscate"] and cfg["ipv6"], "keyword": bool(cfg["keywords"])}
+        for k, suffix, head in REPORT_FILES:
+            path = os.path.join(rdir, name + suffix)
+            if not os.path.isfile(path):
+                canon["files"][k] = None
+                if enabled[k]:
+                    fail("generate_report(%r) wrote no %s although the %s obfuscator is on; directory has %r" % (
+                        name, name + suffix, k, sorted(os.listdir(rdir))), "report", None)
+                continue
+            with open(path, "rb") as fh:
+                raw = fh.read()
+            try:
+                txt = raw.decode("utf-8")
+            except UnicodeDecodeError:
+                fail("%s is not UTF-8: %r" % (name + suffix, raw[:200]), "report", None)
+                canon["files"][k] = "<bytes>"
+                continue
+            if not enabled[k]:
+                fail("generate_report(%r) wrote %s although the %s obfuscator is off: %r" % (name, name + suffix, k, txt[:300]),
+                     "report", None)
+            ls = txt.split("\n")
+            if ls[-1] != "" or ls[0] != head:
+                fail("%s: header / line structure %r" % (name + suffix, txt[:300]), "report", None)
+            rows = [tuple(r.split(",", 1)) if "," in r else (r,) for r in ls[1:-1]]
+            if k == "keyword":
+                # written from a set: order free; each row pairs a keyword with its replacement (either column order)
+                want = sorted(tuple(sorted(x)) for x in after[k])
+                if sorted(tuple(sorted(r)) for r in rows) != want:
+                    fail("%s rows %r differ from mapping() %r" % (name + suffix, rows, after[k]), "report", None)
+                canon["files"][k] = "\n".join([ls[0]] + sorted(ls[1:-1]) + ls[-1:])
+            else:
+                want = [(sub, orig) for orig, sub in after[k]]
+                if rows != want:
+                    fail("%s rows %r differ from mapping() %r" % (name + suffix, rows, after[k]), "report", None)
+                canon["files"][k] = txt
+                origs = [r[1] for r in rows if len(r) == 2]
+                if len(set(origs)) != len(origs):
+                    fail("%s lists an original twice: %r" % (name + suffix, rows), "report", None)
+                subs = [r[0] for r in rows]
+                if k in ("ip", "hostname") and len(set(subs)) != len(subs):
+                    fail("%s lists a substitute twice: %r" % (name + suffix, rows), "report", None)
+                old = prev_rows.get(k)
+                if old is not None and rows[:len(old)] != old:
+                    fail("%s: an earlier report of this run listed %r, this one lists %r" % (name + suffix, old, rows), "report", None)
+                prev_rows[k] = rows
+        return canon
+    finally:
+        pass
+
+
+def model_report(ans):
+    """the model's `report` answer in the canonical shape of take_report"""
+    fs = ans.split("\t")
+    if fs[0] != "R" or len(fs) != 13:
+        return {"bad": ans}
+
+    def mp(f):
+        return [] if f == "~" else [tuple(dec(x) for x in it.split(">")) for it in f.split(",")]
+    facts = [mp(f) for f in fs[3:8]]
+    facts[4] = sorted(facts[4])
+    files = {}
+    for k, f in zip(KINDS, fs[8:13]):
+        if f == "N":
+            files[k] = None
+        else:
+            txt = dec(f[2:])
+            if k == "keyword":
+                ls = txt.split("\n")
+                txt = "\n".join([ls[0]] + sorted(ls[1:-1]) + ls[-1:])
+            files[k] = txt
+    return {"flags": fs[1], "sys": dec(fs[2]), "facts": facts, "files": files}
+
+
+def model_lines(h, impl_maps=None, layout=None):
+    """driver requests of a history; `layout` (a list) receives per step ("call", i, answer index, map index) /
+    ("report", position, name, answer index), indices relative to the first returned line"""
     cfg = h["cfg"]
     all_lines = [l for c in h["calls"] for l in c["lines"]]
     cands = set([cfg["fqdn"]]) | hextets(all_lines)
@@ -942,18 +1262,43 @@ def model_lines(h, impl_maps=None):
                 if x:
                     cands.add(x)
     lines = [sha_line(cands), init_line(cfg)]
-    for c in h["calls"]:
-        lines.append(clean_line(c))
+    plan = report_plan(h)
+    lay = layout if layout is not None else []
+
+    def rep_at(pos, names):
+        for name in names:
+            lay.append(("report", pos, name, len(lines)))
+            lines.append("report")
+    rep_at(-1, plan.get(-1, []))
+    for i, c in enumerate(h["calls"]):
+        lines.extend(call_requests(c))
         lines.append("map")
+        lay.append(("call", i, len(lines) - 2, len(lines) - 1))
+        rep_at(i, plan.get(i, []))
+    rep_at(len(h["calls"]), ["arch"])
     return lines
 
 
-def canon_case(outs, maps):
-    return json.dumps([outs, [[m[k] for k in KINDS] for m in maps]], ensure_ascii=False, sort_keys=True)
+def model_case(h, ans, layout, start):
+    outs, maps, reps = [], [], []
+    for step in layout:
+        if step[0] == "call":
+            outs.append(call_answer(h["calls"][step[1]], ans[start + step[2]]))
+            maps.append(model_mappings(ans[start + step[3]]))
+        else:
+            reps.append((step[1], step[2], model_report(ans[start + step[3]])))
+    return outs, maps, reps
+
+
+def canon_case(outs, maps, reps=()):
+    return json.dumps([outs, [[m[k] for k in KINDS] for m in maps], [list(r) for r in reps]], ensure_ascii=False, sort_keys=True)
 
 
 def strip_tokens(h):
-    return {"cfg": h["cfg"], "calls": [dict((k, v) for k, v in c.items() if k != "tokens") for c in h["calls"]]}
+    out = {"cfg": h["cfg"], "calls": [dict((k, v) for k, v in c.items() if k != "tokens") for c in h["calls"]]}
+    if h.get("reports"):
+        out["reports"] = h["reports"]
+    return out
 
 
 def load_witnesses():
@@ -1007,7 +1352,7 @@ def recogniser_stream(chk, rng, n):
 def run(chk):
     rng = chk.rng
     quick = chk.tier == "quick"
-    n_hist = 450 if quick else 5000
+    n_hist = 560 if quick else 5000
     n_rec = 600 if quick else 10000
     chk.rule = ("histories of 1-12 (thorough: 1-30) clean_content calls of 0-6 lines on one Cleaner; lines are delimiter-joined tokens: "
                 "IPv4 / host names of the system's domain / MAC / IPv6 originals re-drawn from a per-history pool with probability 0.5 "
@@ -1018,6 +1363,12 @@ def run(chk):
                 "netstat-like lines (addresses at line start / end / before 0-20 blanks, shorter / equal / longer than the substitute, "
                 "repeated), a raising call = spec not emitted; "
                 "every combination of the obfuscation switches, no_obfuscate, no_redact, allow lists, plain exclusion patterns; "
+                "10% of the calls go through the single-string entry of clean_content, 12% through clean_file on a file holding the "
+                "lines (a third of those files are named netstat_-neopa = width mode; names that merely contain it are ordinary); half "
+                "of the histories take 1-3 extra generate_report() calls before the first call / between calls / twice in a row (archive "
+                "names with blanks and dots, one report directory per history), every history ends with one; IPv6 originals that are "
+                "issued substitutes; 60 (thorough 500) groups of 2-3 histories are run again on Cleaners that are alive at the same "
+                "time, one step of each in turn (also the same history twice side by side); "
                 "non-trivial = some obfuscator issued a substitute and the history was not seen before")
     chk.assumptions = [
         "Python's re on the cleaner's patterns: the model runs its own backtracking matcher on the pattern strings of the live "
@@ -1027,8 +1378,14 @@ def run(chk):
         "substitute name does not start with 'host' (12 hex digits)",
         "socket.inet_aton/inet_ntoa on canonical dotted quads = ip2int/int2ip of the model (tied by the correspondence); "
         "issued addresses stay below 2^32 (theorem ip_keys_range gives the exact bound)",
-        "regex-mode exclusion patterns, lines longer than 1 MiB and characters whose str.lower()/upper() is not ASCII-trivial "
+        "regex-mode exclusion patterns are generated only as literal words (re.search = substring test, the model's plain form); "
+        "lines longer than 1 MiB and characters whose str.lower()/upper() is not ASCII-trivial "
         "are outside the model; a clean_content call that raises (width mode) = the spec is not emitted",
+        "clean_file on a file named netstat_-neopa = the model's width-mode clean_content on the file's LF-terminated lines, "
+        "written back as their concatenation / removed when nothing is left / untouched when the call raised (composition "
+        "stated by the harness, both parts are the model's); files are written with LF line ends only",
+        "json.dump / json.loads of the facts file and the file system (one file per report name, replaced by a later report of "
+        "the same name) are the harness's reading of the artefacts; Keyword reports come from a set: rows compared sorted",
     ]
     chk.lean()
     try:
@@ -1066,16 +1423,22 @@ def run(chk):
             for desc, fid in fails:
                 chk.failure(desc, strip_tokens(h), finding=fid)
                 chk.count("oracle-failure:" + (fid or "UNLISTED"))
-            ml = model_lines(h, maps[-1] if maps else None)
-            spans.append((len(lines) + 2, len(h["calls"])))
+            lay = []
+            ml = model_lines(h, maps[-1] if maps else None, lay)
+            spans.append((len(lines), lay))
             lines += ml
-            impl.append(canon_case(outs, maps))
+            impl.append(canon_case(outs, maps, rep))
+            chk.count("reports-taken", len(rep))
+            for c in h["calls"]:
+                chk.count("entry:" + c.get("entry", "list") + ("+width" if c.get("width") or is_width_file(c) else ""))
             key = json.dumps(strip_tokens(h), sort_keys=True)
             issued = sum(len(maps[-1][k]) for k in KINDS) if maps else 0
             chk.case(key, issued > 1 and key not in seen)
             seen.add(key)
             chk.count("calls:%d" % len(h["calls"]))
             chk.count("fqdn:" + h["cfg"]["fqdn"])
+            if h["cfg"].get("patterns_regex"):
+                chk.count("patterns:regex-form")
             if h["cfg"].get("socket"):
                 chk.count("system-name:self-determined")
                 if h["cfg"].get("display_name") or h["cfg"].get("ansible_host"):
@@ -1088,11 +1451,28 @@ def run(chk):
                             "mapping": dict((k, v) for k, v in maps[-1].items() if v) if maps else {}})
         ans = run_driver("C09", lines)
         model = []
-        for start, n in spans:
-            outs = [model_out(ans[start + 2 * j]) for j in range(n)]
-            maps = [model_mappings(ans[start + 2 * j + 1]) for j in range(n)]
-            model.append(canon_case(outs, maps))
-        chk.compare("histories(outputs+mappings)", [strip_tokens(h) for h in hs], impl, model)
+        for h, (start, lay) in zip(hs, spans):
+            model.append(canon_case(*model_case(h, ans, lay, start)))
+        chk.compare("histories(outputs+mappings+reports)", [strip_tokens(h) for h in hs], impl, model)
+
+        # ---- several Cleaners alive at once: a history must give what it gives alone
+        n_pairs = 60 if quick else 500
+        small = [i for i, h in enumerate(hs) if 1 <= len(h["calls"]) <= 6]
+        for _ in range(n_pairs):
+            if len(small) < 3:
+                break
+            idx = rng.sample(small, rng.choice([2, 2, 3]))
+            if rng.random() < 0.3:
+                idx[1] = idx[0]                     # the same history twice, side by side
+            group = [hs[i] for i in idx]
+            res = run_interleaved(group, tmp)
+            chk.count("interleaved-groups")
+            for i, (outs, maps, fails, rep) in zip(idx, res):
+                if canon_case(outs, maps, rep) != impl[i]:
+                    chk.failure("a history gives other outputs / mappings / reports when other Cleaners are alive in the process "
+                                "than it gives alone: alone %s, interleaved %s" % (impl[i][:600], canon_case(outs, maps, rep)[:600]),
+                                {"interleaved": [strip_tokens(h) for h in group]})
+                    chk.count("oracle-failure:interleaved")
 
         # ---- the matcher itself
         recogniser_stream(chk, rng, n_rec)
@@ -1101,21 +1481,66 @@ def run(chk):
 
 
 def replay(data):
+    """in this process first; when nothing shows, again in child interpreters under PYTHONHASHSEED 0..5 (a failure that
+    comes from iterating a set of strings shows only under some hash seeds, and the run that found it had a random one)"""
+    rc = replay_core(data)
+    if rc or os.environ.get("C09_REPLAY_CHILD"):
+        return rc
+    import subprocess
+    import sys
+    from harness.common import REPO
+    fd, path = tempfile.mkstemp(prefix="c09_replay_", suffix=".json")
+    try:
+        with os.fdopen(fd, "w") as fh:
+            json.dump(data, fh)
+        for k in range(6):
+            env = dict(os.environ, PYTHONHASHSEED=str(k), C09_REPLAY_CHILD="1", PYTHONPATH=os.pathsep.join([REPO, VERIF]))
+            pr = subprocess.run([sys.executable, "-c", "import sys, json\nfrom harness import c09\n"
+                                 "sys.exit(c09.replay_core(json.load(open(sys.argv[1]))))", path],
+                                env=env, cwd=VERIF, stdout=subprocess.PIPE, stderr=subprocess.STDOUT, universal_newlines=True)
+            if pr.returncode == 1:
+                print("under PYTHONHASHSEED=%d:" % k)
+                print("\n".join(pr.stdout.splitlines()[-12:]))
+                return 1
+    finally:
+        os.remove(path)
+    return 0
+
+
+def replay_core(data):
     h = data["case"]
+    if "interleaved" in h:
+        tmp = tempfile.mkdtemp(prefix="c09_")
+        try:
+            group = h["interleaved"]
+            alone = [canon_case(*(lambda r: (r[0], r[1], r[3]))(run_history(g, tmp, want_reports=True))) for g in group]
+            both = [canon_case(o, m, r) for o, m, f, r in run_interleaved(group, tmp)]
+            bad = 0
+            for n, (a, b) in enumerate(zip(alone, both)):
+                print("history %d alone      : %s" % (n, a[:1500]))
+                print("history %d interleaved: %s%s" % (n, b[:1500], "" if a == b else "   <-- differs"))
+                bad |= a != b
+            print("property violated on this input" if bad else "property holds on this input")
+            return 1 if bad else 0
+        finally:
+            shutil.rmtree(tmp, ignore_errors=True)
     print("replaying", json.dumps(h, ensure_ascii=False)[:2000])
     tmp = tempfile.mkdtemp(prefix="c09_")
     try:
-        outs, maps, fails, _ = run_history(h, tmp, want_reports=True)
-        ans = run_driver("C09", setup_lines() + model_lines(h, maps[-1] if maps else None))
-        base = len(setup_lines()) + 2
+        outs, maps, fails, reps = run_history(h, tmp, want_reports=True)
+        lay = []
+        ml = model_lines(h, maps[-1] if maps else None, lay)
+        ans = run_driver("C09", setup_lines() + ml)
+        mouts, mmaps, mreps = model_case(h, ans, lay, len(setup_lines()))
         for j, c in enumerate(h["calls"]):
-            mo = model_out(ans[base + 2 * j])
-            mm = model_mappings(ans[base + 2 * j + 1])
-            print("call %d in   : %r" % (j, c["lines"]))
+            print("call %d in   : %r%s" % (j, c["lines"], " (%s)" % c["entry"] if c.get("entry") else ""))
             print("        impl : %r" % (outs[j],))
-            print("        model: %r%s" % (mo, "" if mo == outs[j] else "   <-- differs"))
-            if mm != maps[j]:
-                print("        mapping impl %r\n        mapping model %r   <-- differs" % (maps[j], mm))
+            print("        model: %r%s" % (mouts[j], "" if mouts[j] == outs[j] else "   <-- differs"))
+            if mmaps[j] != maps[j]:
+                print("        mapping impl %r\n        mapping model %r   <-- differs" % (maps[j], mmaps[j]))
+        for (pos, name, ri), (_, _, rm) in zip(reps, mreps):
+            same = json.dumps(ri, sort_keys=True) == json.dumps(rm, sort_keys=True)
+            print("report %r after call %d: %s" % (name, pos, "equal to the model" if same else "impl %r\n        model %r   <-- differs" % (ri, rm)))
         print("final mapping:", json.dumps(maps[-1] if maps else {}, ensure_ascii=False))
         unlisted = [d for d, fid in fails if fid is None]
         for d, fid in fails:
